@@ -174,6 +174,12 @@ def transport_case(ctx, i):
             sp = [c for c in P.structural_positions(stream) if 0 < c < len(stream)]
             if sp:
                 cuts = sorted(set(rng.sample(sp, min(len(sp), rng.choice([1, 2, 4])))) | set(cuts[:1]))
+        if rng.random() < 0.35:
+            # pieces that consist of white space only: a blank inside a tag, a line break between attributes or children
+            ws = [q for q, ch in enumerate(stream) if ch in " \t\r\n" and 0 < q < len(stream) - 1]
+            if ws:
+                for q in rng.sample(ws, min(len(ws), rng.choice([1, 2, 3]))):
+                    cuts = sorted(set(cuts) | {q, q + 1})
         conns.append((stream, ams, ends, P.cut(stream, cuts)))
     how = ["round-robin", "random", "random", "sequential"][(i // 2) % 4]
     schedule = T.interleavings(rng, [len(c[3]) for c in conns], how)
